@@ -220,7 +220,7 @@ func cmdCheck(args []string) int {
 					if msg := compareWitness(tp, r); msg != "" {
 						mismatches++
 						mismatchNotes = appendUniq(mismatchNotes, tp.ID+": "+msg)
-					} else {
+					} else if r.Skipped == "" {
 						validated++
 					}
 				} else {
